@@ -29,16 +29,17 @@ theorem formtran_mset_composition (mk : Masks) (tbl : List Row) (got goq gm : Op
     (hdis : ∀ c ∈ t_a, c ∉ q_a)
     (hgotw : ∀ g, got = some g → ∀ r ∈ g.r, r.length = g.c)
     (hgoqw : ∀ g, goq = some g → ∀ r ∈ g.r, r.length = g.c) :
-    ∃ (t o m q s : List Nat) (gotM goqM : M α) (pvm : List Nat) (mRows : List (List α)),
-      List.Forall₂ (fun d row => ∃ p, (iddofOf mkKey tbl)[p]? = some (mkKey d.1 d.2) ∧
+    ∃ (idg : List κ) (t o m q s : List Nat) (gotM goqM : M α) (pvm : List Nat) (mRows : List (List α)),
+      iddofG mkKey mk tbl = .ok idg ∧
+      List.Forall₂ (fun d row => ∃ p, idg[p]? = some (mkKey d.1 d.2) ∧
         TranRow (gotM.c + goqM.c) t o m q s t_a q_a gotM goqM pvm mRows p row ∧
         ∀ (i k : Nat), m[i]? = some p → pvm[k]? = some i → mRows[k]? = some row →
           ∃ (gmM : M α) (g : List α) (t_n o_n q_n : List Nat), gm = some gmM ∧ gmM.r[i]? = some g ∧
             setPos tbl mk.n mk.t = .ok t_n ∧ setPos tbl mk.n mk.o = .ok o_n ∧ setPos tbl mk.n mk.q = .ok q_n ∧
             MRow gotM.c goqM.c t_a q_a t_n o_n q_n gotM goqM g row) dof out.r := by
-  obtain ⟨t, o, m, q, s, gotM, goqM, pvm, mRows, _, _, _, _, hmset, hg1, hg2, hg10, hg20, _, hall⟩ :=
+  obtain ⟨idg, t, o, m, q, s, gotM, goqM, pvm, mRows, hidg, _, _, _, _, hmset, hg1, hg2, hg10, hg20, _, hall⟩ :=
     formtran_partition_identity mkKey mk tbl got goq gm req out dof pvdof a t_a q_a h hpv ha hgen hta hqa hdis
-  refine ⟨t, o, m, q, s, gotM, goqM, pvm, mRows, hall.imp ?_⟩
+  refine ⟨idg, t, o, m, q, s, gotM, goqM, pvm, mRows, hidg, hall.imp ?_⟩
   rintro d row ⟨p, hp, hT⟩
   refine ⟨p, hp, hT, ?_⟩
   intro i k _ hik hrow
@@ -96,12 +97,27 @@ example : formtranUp (α := Int) exKey exMasks exTblM (some ⟨[[2]], 1⟩) (som
     mksetpv (exTblM.map (·.2.2)) exMasks.g exMasks.a = .ok [true, false, true, false] ∧
     ([3, 1] : List Nat).all (fun i => [true, false, true, false][i]? == some true) = false ∧
     setPos exTblM exMasks.a exMasks.t = .ok [0] ∧ setPos exTblM exMasks.a exMasks.q = .ok [1] := by
-  simp [formtranUp, mkdofpv, mksetpv, expanddof, expanddof2, expandRow, digits, digitsRev, mkdofpvKeys, argsort,
+  simp [formtranUp, formtranUpWith, upSelectWith, procMsetWith, iddofG, rowsOfMask, mkdofpv, mksetpv, expanddof, expanddof2, expandRow, digits, digitsRev, mkdofpvKeys, argsort,
     lookup, searchsortedLeft, key, List.mergeSort, List.zipIdx, List.MergeSort.Internal.splitInTwo,
     exMasks, Masks.ofTable, exTblM, mask, v_p, v_g, v_n, v_f, v_a, v_q, v_r, v_b, v_c, v_o, v_s, v_m, v_e, v_l, v_t,
     inSet, liftE, setPos, positions, upSelect, selSet, selIn, takeIdx, matIntersect, lookupAll, iddofOf, dofRows, exKey,
     procMset, upBlocks, eyeBlock, oBlock, mBlock, colsAt, anyCols, dot, addM, rowComb, addRow, smulRow,
     scatterRows, setCols, rowsAt, unitRow, zeroRow, reorder, UpSel.sets,
+    bind, Except.bind, pure, Except.pure, Except.map, List.mapM_cons, List.mapM_nil]
+
+/-- `exTblM` behind an extra point (e-set: in the p-set, not in the g-set) -/
+def exTblMx : List Row := (9, 0, 2048) :: exTblM
+
+/-- the request `[(4, 0), (2, 0)]` with the extra point in front: the answer is the one on the table without the point
+(before fix e74e9b9 of finding F69: `RuntimeError`, the g-set positions indexed the whole table) -/
+example : formtranUp (α := Int) exKey exMasks exTblMx (some ⟨[[2]], 1⟩) (some ⟨[[3]], 1⟩) (some ⟨[[1, 1, 1]], 3⟩)
+      (.rows [(4, 0), (2, 0)]) = .ok (⟨[[3, 4], [2, 3]], 2⟩, [(4, 0), (2, 0)]) := by
+  simp [formtranUp, formtranUpWith, upSelectWith, procMsetWith, iddofG, rowsOfMask, mkdofpv, mksetpv, expanddof, expanddof2, expandRow, digits, digitsRev, mkdofpvKeys, argsort,
+    lookup, searchsortedLeft, key, List.mergeSort, List.zipIdx, List.MergeSort.Internal.splitInTwo,
+    exMasks, Masks.ofTable, exTblMx, exTblM, mask, v_p, v_g, v_n, v_f, v_a, v_q, v_r, v_b, v_c, v_o, v_s, v_m, v_e, v_l, v_t,
+    inSet, liftE, setPos, positions, upSelect, selSet, selIn, takeIdx, matIntersect, lookupAll, iddofOf, dofRows, exKey,
+    procMset, upBlocks, eyeBlock, oBlock, mBlock, colsAt, rowsAt, anyCols, dot, addM, rowComb, addRow, smulRow,
+    scatterRows, setCols, unitRow, zeroRow, reorder, UpSel.sets,
     bind, Except.bind, pure, Except.pure, Except.map, List.mapM_cons, List.mapM_nil]
 
 end examples
